@@ -332,13 +332,22 @@ def run(rep: vk.Report):
                     o = r.choice(["+", "-", "*", "/"]) if op == "m_binop" else r.choice(["-", "/"])
                     import operator
                     fn = {"+": operator.add, "-": operator.sub, "*": operator.mul, "/": operator.truediv}[o]
-                    others = [2, 0.5, pool.matrices[1] if M is pool.matrices[0] else pool.matrices[0], np.ones((M.rows, M.cols)) * 2,
+                    # an array operand as a user may hold it: distinct, non-zero entries (no symmetry hides a misplaced element) in every
+                    # memory layout - C, Fortran, transposed / reversed views, strided, integer
+                    base_ = np.array([[1.5 + 3 * i_ - 2 * j_ + ((i_ * j_) % 3) for j_ in range(M.cols)] for i_ in range(M.rows)])
+                    marr = r.choice([base_, np.asfortranarray(base_), np.ascontiguousarray(base_.T).T, np.ascontiguousarray(base_[::-1])[::-1],
+                                     np.ascontiguousarray(base_[:, ::-1])[:, ::-1], (base_ * 2).astype(np.int64), np.repeat(base_, 2, axis=1)[:, ::2],
+                                     np.asfortranarray((base_ * 2).astype(np.int32)), base_.tolist()])
+                    others = [2, 0.5, pool.matrices[1] if M is pool.matrices[0] else pool.matrices[0], np.ones((M.rows, M.cols)) * 2, marr, marr,
                               np.ones((M.rows + 1, M.cols)), (M * 2)]
-                    right = r.choice(others if op == "m_binop" else [3, 1.5, np.ones((M.rows, M.cols)) * 2, np.ones((M.rows, M.cols + 1))])
+                    right = r.choice(others if op == "m_binop" else [3, 1.5, np.ones((M.rows, M.cols)) * 2, marr, marr, np.ones((M.rows, M.cols + 1))])
                     if op == "m_binop":
                         model = f"m_binop {BOP[o]} {S.mobj(M)} {S.arg(right)}"; py = attempt(lambda: fn(M, right))
                     else:
-                        model = f"m_rbinop {BOP[o]} {S.mobj(M)} {S.arg(right)}"; py = attempt(lambda: fn(right, M))
+                        # a nested Python LIST on the left of `-` is rejected loudly (InvalidOperationError) although `list + X`, `list * X`
+                        # and `list / X` convert it: an API gap, not a violation (nothing is silently truncated); modelled as such
+                        marg = "AOther" if (o == "-" and isinstance(right, list)) else S.arg(right)
+                        model = f"m_rbinop {BOP[o]} {S.mobj(M)} {marg}"; py = attempt(lambda: fn(right, M))
                     if py[0] == "ok":
                         rv = np_values(right, vals) if hasattr(right, "rows") else np.asarray(right, dtype=float)
                         with np.errstate(all="ignore"):
